@@ -152,6 +152,7 @@ class C01(Prop):
         core.tie_run(stats, "stream", ["gen-mt", seed + 3, 2, "FW"], lambda c, t: True, cmp)
         # a keepalive configuration the OS rejects, on either side: the connection works all the same
         core.tie_run(stats, "stream", ["gen-badka", "F"], lambda c, t: True, cmp)
+        core.tie_run(stats, "stream", ["gen-slowreader", "F"], lambda c, t: True, cmp)
         # through the node layer: messages that arrive before the listener call keep their order
         core.tie_run(stats, "node", ["gen-early", seed + 9, 2], lambda c, t: True, cmp)
         if th:
@@ -188,6 +189,8 @@ class C11(Prop):
         # its place), with small buffers travelling the other way meanwhile
         core.tie_run(stats, "stream", ["gen-duplex", "T", 8000 if th else 3000], lambda c, t: True, cmp)
         core.tie_run(stats, "stream", ["gen-badka", "T"], lambda c, t: True, cmp)
+        # a slow reader and a silent peer: the read loop stops only when the socket is drained
+        core.tie_run(stats, "stream", ["gen-slowreader", "T"], lambda c, t: True, cmp)
         if th:
             core.tie_run(stats, "stream", ["gen-e2e", seed + 5, 40, "T", "big"], self.nontrivial, cmp)
 
@@ -306,6 +309,8 @@ class C18(C03):
         core.tie_run(stats, "net", ["gen", seed + 40, 600 if tier == "thorough" else 60], self.nontrivial, cmp)
         # thread release under a persistent accept() error (descriptor table full, a connection waiting)
         core.tie_run(stats, "net", ["gen-emfile"], lambda c, t: True, cmp)
+        # stopped nodes release their threads: every stop scenario, with signals and traffic still flowing
+        core.tie_run(stats, "node", ["gen-stop"] + (["thorough"] if tier == "thorough" else []), lambda c, t: True, cmp)
 
 
 class C13(Prop):
@@ -505,6 +510,11 @@ class C06(Prop):
         core.tie_run(stats, "vq", ["gen-clones", 600000 if th else 150000], self.nontrivial, cmp)
         core.tie_run(stats, "vq", ["gen-collide", 8, 60000 if th else 15000], self.nontrivial, cmp)
         core.tie_run(stats, "vq", ["gen-conc", seed, 1500 if th else 200], self.nontrivial, cmp)
+        # a long fold of timer commands between the receiver's clock reading and its arming of the next expiry:
+        # the timer that expires in between must still be returned by the blocked call
+        core.tie_run(stats, "vq", ["gen-backlog"], self.nontrivial, cmp)
+        # forced schedules at the sync point between the fold and the arming of the next expiry
+        core.tie_run(stats, "vq", ["gen-race"], self.nontrivial, cmp)
 
     def search(self, tier, seed):
         st = core.Stats()
